@@ -60,11 +60,14 @@ def Comp.probe {α : Type} (c : Comp α) : Except String (α × Bool) :=
   | .error m => .error m
 
 /-- Evaluate `inner` in a `subContext{parent: ctx, vals: [v0, v1]}`:
-    `GetMatch(0/1)` answer from `vals`, other indices answer "", `GetKey` goes to the parent. -/
+    `GetMatch(0/1)` answer from `vals`, larger indices answer "", a negative index is not an element
+    index and passes through to the parent (this is how `{time live}` keeps touching the context when
+    nested), `GetKey` goes to the parent. -/
 def Comp.withSub {α : Type} (v0 v1 : Bytes) : Comp α → Comp α
   | .ret a => .ret a
   | .getMatch i k =>
-    (k (if i = 0 then v0 else if i = 1 then v1 else [])).withSub v0 v1
+    if i < 0 then .getMatch i fun b => (k b).withSub v0 v1
+    else (k (if i = 0 then v0 else if i = 1 then v1 else [])).withSub v0 v1
   | .getKey s k => .getKey s (fun b => (k b).withSub v0 v1)
   | .panic m => .panic m
 
